@@ -169,7 +169,7 @@ class RefPrinter(object):
             if None in old or None in d:
                 path_len = 0.0
             else:
-                path_len = math.sqrt(sum((a - b) ** 2 for a, b in zip(old, d)))
+                path_len = math.dist(old, d)      # (no OverflowError for absurd coordinates, unlike ** 2)
         if self.feed > 0:
             self.clock += path_len / self.feed * 60.0
         self.pos = d
